@@ -58,7 +58,8 @@ class C18(Prop):
             if op.startswith("ordinal"):
                 M = []
                 for _ in range(n):
-                    pool = rng.sample(range(1, 400), m) if op == "ordinal" else [rng.randint(1, 4) for _ in range(m)]
+                    lo = -120 if (i // 7) % 2 else 1      # every other case mixes zero and negative values with the NaNs
+                    pool = rng.sample(range(lo, 400), m) if op == "ordinal" else [rng.randint(min(lo, 0) // 60, 4) for _ in range(m)]
                     M.append([None if rng.random() < 0.25 else v / 8.0 for v in pool])
                 if all(x is None for r in M for x in r): continue
             else:
